@@ -1,5 +1,5 @@
 INIT Init
 NEXT Next
-CONSTANTS NL = 4 WE = 3 WO = 2 C = 3 Word = 512 Head2 = 64 SubCarry = 2 Slack = 2 BMode = "extreme" PairMode = "full" Variant = "code"
+CONSTANTS NL = 4 WE = 3 WO = 2 C = 3 Word = 512 Head2 = 64 SubCarry = 2 Slack = 2 AMode = "all" BMode = "extreme" PairMode = "full" Variant = "code"
 INVARIANTS AddSubExact ReduceExact MulExact SquareExact MulIsColumnSum ContractCanonical
 CHECK_DEADLOCK FALSE
